@@ -163,7 +163,7 @@ def value_strategy(name, prof):
     return st.one_of(st.just(s.SpecialValues.none),
                      st.builds(s.RubyReserveType, enum_of(s.RubyReserveType.Position), st.one_of(st.none(), lengths(prof, FS_U))))
   if name == "Shear":
-    return st.sampled_from([0.0, 16.7, -10, 100, 0])
+    return st.sampled_from([0.0, 16.7, -10, 100, 0] + ([0.00001, -0.00002] if prof["extreme_numbers"] else []))
   if name == "ShowBackground":
     return enum_of(s.ShowBackgroundType)
   if name == "TextAlign":
